@@ -442,7 +442,9 @@ func hasFid(fids []p9p.VerifFid, f p9p.Fid) bool {
 }
 
 func c20Ops(rich bool) func(key string, hist []FOp) []FOp {
-	nameLists := [][]string{{}, {"a"}, {"a", "b"}, {"x"}, {"a", "x"}, {"a", "."}, {"", "a"}, {"a", "..", "a"}, {".."}, {"."}, {"a", ".."}, {""}, {"a/b"}, {"a", "x\\y"}}
+	nameLists := [][]string{{}, {"a"}, {"a", "b"}, {"x"}, {"a", "x"}, {"a", "."}, {"", "a"}, {"a", "..", "a"}, {".."}, {"."}, {"a", ".."}, {""}, {"a/b"}, {"a", "x\\y"},
+		// more elements than one Twalk may carry (16): still one walk, one verdict
+		{"a", "b", "a", "a", "a", "a", "a", "a", "a", "a", "a", "a", "a", "a", "a", "a", "a"}}
 	if rich {
 		nameLists = append(nameLists, []string{"c"}, []string{"a", "d"}, []string{"a", "b", ".."}, []string{".", "."})
 	}
